@@ -117,7 +117,8 @@ def make_setup(cfg: dict[str, Any]):
             for n in nonces:
                 rec = {"task": i, "nonce": n, "inv": s.nsteps, "t": None, "ret": None, "res": None}
                 world["ops"].append(rec)
-                S.point(f"inv:{n}")
+                if not cfg.get("coarse"):
+                    S.point(f"inv:{n}")  # (coarse configurations: the task's start and its clock reading are points already)
                 rec["inv"] = s.nsteps
                 current[s.current().id] = rec
                 rec["res"] = cache.check_and_add(n)
